@@ -63,7 +63,7 @@ let () =
 
 (* c10.rep <maxdef> <nullsfirst> <descending> <ops>      one repeated column
      ops '/' separated:  W<values>  S<i>:<j>  P ;  values ';' separated  <rep>.<def>.<i<hex>|x<hex>|n>
-   answer: <logical rows>#<rows read from the page>#<less matrix>; rows '|' separated *)
+   answer: <logical rows>#<rows read from the page>#<less matrix>#<comparator sign matrix>; rows '|' separated *)
 let rval_of_tok t =
   match String.split_on_char '.' t with
   | [r; d; v] ->
@@ -99,7 +99,7 @@ let () =
   register "c10.rep" (function
     | [md; nf; desc; ops] ->
         let ops = if ops = "_" then [] else List.map rop_of_tok (String.split_on_char '/' ops) in
-        let ((rs, prs), less) = Model.c10_rep (n_of_hex md) (bool_of_tok nf) (bool_of_tok desc) ops in
-        let mat m = if m = [] then "_" else String.concat "|" (List.map (fun r -> String.concat "" (List.map tok_of_bool r)) m) in
-        tok_of_rrows rs ^ "#" ^ tok_of_rrows prs ^ "#" ^ mat less
+        let (((rs, prs), less), cm) = Model.c10_rep (n_of_hex md) (bool_of_tok nf) (bool_of_tok desc) ops in
+        let mat f m = if m = [] then "_" else String.concat "|" (List.map (fun r -> String.concat "" (List.map f r)) m) in
+        tok_of_rrows rs ^ "#" ^ tok_of_rrows prs ^ "#" ^ mat tok_of_bool less ^ "#" ^ mat sign cm
     | _ -> failwith "c10.rep args")
